@@ -120,6 +120,16 @@ func c18Validity(snap *stack.Snapshot, base string, l *Layout, ts []fileTruth, c
 			}
 			continue
 		}
+		if c.Location == stack.GoMod {
+			// among the detected module roots the nearest one owns the file (a module nested
+			// in another one: Go's own rule)
+			used := strings.TrimSuffix(c.LocalSrcPath, "/"+c.RelSrcPath)
+			for root := range snap.LocalGomods {
+				if hasPathPrefix(c.LocalSrcPath, root) && len(root) > len(used) {
+					return fmt.Errorf("%s: resolved against the module root %q although the detected root %q is nearer to it", where, used, root)
+				}
+			}
+		}
 		switch c.Location {
 		case stack.Stdlib:
 			if snap.RemoteGOROOT == "" || !hasPathPrefix(c.RemoteSrcPath, snap.RemoteGOROOT+"/src") {
@@ -205,7 +215,7 @@ func c18Oracle(c c18Case) error {
 var c18 = Check[c18Case]{
 	Prop: "C18", Name: "layout",
 	Gen: func(t *rapid.T) c18Case {
-		l := genLayout(t, false)
+		l := genLayout(t, oneIn(t, 5, "nestedRoots"))
 		nt := len(l.truths("")) + 1
 		k := rapid.IntRange(1, min(nt, 12)).Draw(t, "nrefs")
 		idx := make([]int, nt)
